@@ -11,7 +11,7 @@ CONSTANTS
   Parts = {"p1"}
   UseDefault = TRUE
   Kinds = {"alterDatabase", "createIndex", "alterIndex", "loadPartitions"}
-  WithFail = TRUE
+  WithFail = FALSE
   WithInflight = TRUE
   WithRestart = TRUE
   AlterDbChecked = TRUE
